@@ -173,10 +173,31 @@ func newTagProg(id string, r *rand.Rand, coverFrom int, _ bool) *tagGen {
 			st.a.Fields = append(st.a.Fields, &Field{Embedded: true, Type: Ref(stamps.a)})
 			st.b.Fields = append(st.b.Fields, &Field{Embedded: true, Type: Ref(stamps.b)})
 			p.Feature("tagprog:embedded-unexported-type")
+			if r.Intn(2) == 0 {
+				// same Go NAME as a promoted field, another JSON key: encoding/json emits both
+				for _, d := range []*Decl{st.a, st.b} {
+					d.Fields = append(d.Fields, &Field{Name: "UpdatedAt", Type: Basic("int"), Tag: `json:"renamed_updated_at"`})
+				}
+				p.Feature("tagprog:outer-field-redeclares-promoted-go-name-under-another-key")
+			}
+		} else if s == 2 {
+			// an unexported guard field (the intended use of guards): never serialised
+			for _, d := range []*Decl{st.a, st.b} {
+				d.Fields = append(d.Fields, &Field{Name: "guard" + name, Type: Ref(map[*Decl]*Decl{st.a: enum.a, st.b: enum.b}[d]), Tag: `gomacro-sql-guard:"#[Mood.MoodCalm]"`})
+			}
+			p.Feature("tagprog:unexported-guard-field")
 		} else if s == 3 {
 			st.a.Fields = append(st.a.Fields, &Field{Embedded: true, Type: Ref(metaS.a)})
 			st.b.Fields = append(st.b.Fields, &Field{Embedded: true, Type: Ref(metaS.b)})
 			p.Feature("tagprog:embedded-unexported-type-two-levels")
+			if r.Intn(2) == 0 {
+				// same JSON KEY as a promoted field (two levels down): like encoding/json, the
+				// shallower field hides the promoted one
+				for _, d := range []*Decl{st.a, st.b} {
+					d.Fields = append(d.Fields, &Field{Name: "Headline", Type: Basic("string"), Tag: `json:"audit_by"`})
+				}
+				p.Feature("tagprog:outer-field-hides-promoted-json-key")
+			}
 		}
 		// twin only: ignored fields of types declared outside the analysed file
 		switch s % 4 {
